@@ -560,7 +560,8 @@ where
     /// Receives the next change event.
     pub async fn recv(&mut self) -> Result<Option<ListEvent<T>>, RecvError> {
         // Provide initial value complete event.
-        if self.len == self.initial_len && !self.complete {
+        // A subscription that was sent to another endpoint may already be past its initial contents.
+        if self.len >= self.initial_len && !self.complete {
             self.complete = true;
             return Ok(Some(ListEvent::InitialComplete));
         }
